@@ -444,7 +444,7 @@ def run(chk, replay=None):
 
     # 5b. the rejection loop fed with uniform numbers on / next to every cumulative boundary (dyadic rates: strict)
     for wt in [w_ for w_ in bin_cases + weight_sets if sum(w_) & (sum(w_) - 1) == 0 and sum(1 for x in w_ if x > 0) >= 2]:
-      for unit5 in (0.25, 49.0 / 256.0, 3.0):
+      for unit5 in (0.25, 49.0 / 256.0, 3.0, 2.0 ** -30):      # (the last: every rate below 1e-8 - small is not zero)
         n = len(wt)
         rates = [w_ * unit5 for w_ in wt]
         cdf = Cdf(rates)
